@@ -171,3 +171,17 @@ Proof. vm_compute. reflexivity. Qed.
 Example C12_example_slice : slice_elems 7 (mkslice (Some (-2)) None (Some (-3))) = Some [5; 2]
   /\ slice_len_spec 7 (mkslice (Some (-2)) None (Some (-3))) = Some 2.
 Proof. vm_compute. split; reflexivity. Qed.
+
+(** ** Tie to the source.  The left-hand sides (module SVGen.C12_Stack) are is_collapsible and
+    is_blockable of scico/operator/_stack.py as regenerated by tools/py2coq.py on every run;
+    the right-hand sides are the models of C12/Shape.v used by the theorems above. *)
+From SV Require Import C12.GenSig C12.Gen.
+From SVGen Require C12_Stack.
+
+Theorem C12_gen_is_collapsible : forall l : list nshape, C12_Stack.is_collapsible_gen l = is_collapsible l.
+Proof. exact is_collapsible_gen_is_model. Qed.
+Print Assumptions C12_gen_is_collapsible.
+
+Theorem C12_gen_is_blockable : forall l : list nshape, C12_Stack.is_blockable_gen l = is_blockable l.
+Proof. exact is_blockable_gen_is_model. Qed.
+Print Assumptions C12_gen_is_blockable.
